@@ -28,7 +28,7 @@ theorem u31_max : Gen.U31_MAX = 2 ^ 31 - 1 := by decide
 theorem invalid_feature_id : Gen.INVALID_FEATURE_ID = 2 ^ 31 - 1 := by decide
 theorem unused_check : Gen.UNUSED_CHECK = 2 ^ 32 - 1 := by decide
 theorem simd_size : Gen.SIMD_SIZE = 8 := by decide
-/-- the CLI's `-O mecab` printing loop is textually the one replicated in the harness -/
-theorem mecab_loop_unchanged : Gen.MECAB_LOOP_UNCHANGED = 1 := by decide
+-- (the CLI's `-O mecab` printing loop used to be compared textually here; the stream `cli` now runs the real
+-- `tokenize` program and feeds what it prints to the corpus reader, so a harmless rewrite of that loop no longer alarms)
 
 end Vibrato.ConstsCheck
